@@ -18,7 +18,17 @@ const (
 	preambleLen  = 36
 )
 
-var errMalformed = errors.New("malformed rtpdump")
+var (
+	errMalformed = errors.New("malformed rtpdump")
+	// errUnrepresentable is returned instead of writing a value the format has no room for.
+	errUnrepresentable = errors.New("value cannot be represented in rtpdump")
+)
+
+const (
+	// the record length field is 16 bit and counts the 8-byte record header
+	maxPayloadLen = 1<<16 - 1 - pktHeaderLen
+	maxUint32     = 1<<32 - 1
+)
 
 // Header is the binary header at the top of the RTPDump file. It contains
 // information about the source and start time of the packet stream included
@@ -88,6 +98,13 @@ type Packet struct {
 
 // Marshal encodes the Packet as binary.
 func (p Packet) Marshal() ([]byte, error) {
+	if len(p.Payload) > maxPayloadLen {
+		return nil, errUnrepresentable
+	}
+	if ms := p.Offset / time.Millisecond; ms < 0 || ms > maxUint32 {
+		return nil, errUnrepresentable
+	}
+
 	packetLength := len(p.Payload)
 	if p.IsRTCP {
 		packetLength = 0
